@@ -129,7 +129,7 @@ def constructs():
               ("cmp", "in", qa(), ("list", []))):
         out.append(("membership", Q(A, C(F(e)))))
     # =~ with every subset of flags
-    pats = ["a+", "A", "a.b", "^b", "\\w", "ab|a", "a"]
+    pats = ["a+", "A", "a.b", "^b", "\\w", "ab|a", "a", "a|ab", "a.*?", "a+?b?"]
     for pat in pats:
         for n in range(0, 5):
             for flags in itertools.combinations("aims", n):
@@ -232,7 +232,23 @@ def plan(tier, seed):
     na = len(alias_pairs())
     for lo in range(0, na, 60):
         shards.append(("A", lo, min(na, lo + 60)))
+    nf = len(fake_root_compounds())
+    for lo in range(0, nf, 100):
+        shards.append(("F", lo, min(nf, lo + 100)))
     return shards
+
+
+FR_SIMPLE = ["^[?@.k == 2].k", "$.k", "^[0].s", "$.l[*]", "^[?@.o].l[*]", "$.o.*"]
+
+
+def fake_root_compounds():
+    """The fake root as an operand of union / intersection, in every position next to standard roots."""
+    out = []
+    for n in (1, 2):
+        for qs in itertools.product(FR_SIMPLE, repeat=n + 1):
+            for ops in itertools.product("|&", repeat=n):
+                out.append(tuple(x for pair in zip(qs, ops + ("",)) for x in pair if x))
+    return out
 
 
 def run_shard(shard, acc):
@@ -246,9 +262,43 @@ def run_shard(shard, acc):
                 texts = list(spell.spellings(spell.query(q, o), 1, True, blanks=spell.BLANKS))
             for text in texts:
                 _eval(tag, q, text, acc)
+    elif shard[0] == "F":
+        for parts in fake_root_compounds()[shard[1]:shard[2]]:
+            _fake_compound(parts, acc)
     else:
         for tag, alias, std in alias_pairs()[shard[1]:shard[2]]:
             _alias(tag, alias, std, acc)
+
+
+def _fake_compound(parts, acc, record=True):
+    import jsonpath
+    from .c11 import fold
+
+    text = " ".join(parts)
+    try:
+        p = jsonpath.compile(text)
+        simple = [jsonpath.compile(q) for q in parts[0::2]]
+    except Exception as e:  # noqa: BLE001
+        acc.violation("F", "compile-error", {"parts": list(parts), "query": text}, expected="compiles", observed="%s: %s" % (type(e).__name__, e))
+        return
+    for di, doc in enumerate(docs()):
+        exp = fold([sp.findall(doc) for sp in simple], list(parts[1::2]))
+        bad = None
+        try:
+            got = p.findall(doc)
+            got2 = [m.obj for m in p.finditer(doc)]
+            if not jeq_list(got, exp):
+                bad = ("fake-root-compound.findall", got)
+            elif not jeq_list(got2, exp):
+                bad = ("fake-root-compound.finditer", got2)
+        except Exception as e:  # noqa: BLE001
+            bad = ("exception", "%s: %s" % (type(e).__name__, e))
+        if record:
+            acc.case("F", (text, di), outcome=tuple(ckey(v) for v in exp), nontrivial=bool(exp))
+            acc.count("F.%s" % ("some" if exp else "none"))
+        if bad:
+            acc.violation("F", bad[0], {"parts": list(parts), "query": text, "doc": doc}, expected=exp, observed=bad[1])
+            return
 
 
 def _eval(tag, q, text, acc, only=None, record=True):
@@ -326,10 +376,14 @@ def REQUIRE(tier):
         req["X.%s.none" % t] = 1
     for t in ("and/or/not", "<>", "literal", "bare-names", "rootless", "undefined"):
         req["A.%s.some" % t] = 1
+    req["F.some"] = 100
     return req
 
 
 def check_case(sub, case, acc):
+    if sub == "F":
+        _fake_compound(tuple(case["parts"]), acc, record=False)
+        return
     if sub == "X":
         q = tup(case["q"])
         # replay on the recorded document/context
@@ -403,4 +457,6 @@ def signature(sub, case, v):
                 if s[0] == "filter":
                     shape = _expr_shape(s[1])
         return "C13.X.%s.%s.%s.%s" % (v["kind"], case["tag"], q[1], shape[:80])
+    if sub == "F":
+        return "C13.F.%s.ops(%s)" % (v["kind"], "".join(case["parts"][1::2]))
     return "C13.A.%s.%s" % (v["kind"], case["tag"])
